@@ -1057,7 +1057,7 @@ class Walker:
                 self.T.env[p["id"]] = self.opaque_names[p["name"]]
             elif term is None:
                 self.T.env.pop(p["id"], None)
-            elif self.opaque_all and not p.get("mut") and not self.F.types[p["t"]].startswith("&") and term[0] not in ("var", "int", "def", "field"):
+            elif self.opaque_all and not p.get("mut") and not self.F.types[p["t"]].startswith("&") and term[0] not in ("var", "int", "def", "field") and p["name"] not in getattr(self, "transparent_names", ()):
                 self.T.env[p["id"]] = ("var", p["name"], p["id"])
                 if self.on_let is not None:
                     self.on_let(p, term)
